@@ -72,10 +72,17 @@ type c16acct struct {
 	starts, stops int
 }
 
-func c16NewMaps() (ebpf.VerifMaps, func(), error) {
+// c16NewMaps creates the fast-path maps; full names the one map (if any) that
+// holds a single entry, so that the control plane's insert for every further
+// subscriber is refused by the kernel (E2BIG).
+func c16NewMaps(full string) (ebpf.VerifMaps, func(), error) {
 	var made []*cebpf.Map
 	mk := func(name string, k, v uint32) (*cebpf.Map, error) {
-		m, err := cebpf.NewMap(&cebpf.MapSpec{Name: name, Type: cebpf.Hash, KeySize: k, ValueSize: v, MaxEntries: 64})
+		n := uint32(64)
+		if name == full {
+			n = 1
+		}
+		m, err := cebpf.NewMap(&cebpf.MapSpec{Name: name, Type: cebpf.Hash, KeySize: k, ValueSize: v, MaxEntries: n})
 		if err == nil {
 			made = append(made, m)
 		}
@@ -113,6 +120,11 @@ func c16GenDHCP4(r *sim.Rand, tier string, cs *sim.Case) {
 	cs.Knobs["lease_s"] = int64(sim.Pick(r, 30, 120))
 	cs.Knobs["relaymask"] = int64(r.N(8))
 	cs.Knobs["radius"] = int64(r.Weighted(1, 3))
+	// failing system calls: one kernel map with a single slot (1 MAC, 2 VLAN, 3 circuit-id fast-path map, 4 QoS ingress map)
+	cs.Knobs["mapfull"] = int64(r.Weighted(6, 2, 1, 1, 2))
+	if cs.Knobs["mapfull"] != 0 {
+		cs.Knobs["clients"] = int64(r.Range(2, 3))
+	}
 	nc := int(cs.Knobs["clients"])
 	for ci := 0; ci < nc; ci++ {
 		// establishment prefix: 0 nothing, 1 discover, 2 discover+request
@@ -167,7 +179,11 @@ func c16RunDHCP4(c *sim.Ctx) {
 	if lease <= 0 {
 		lease = 30 * time.Second
 	}
-	maps, closeMaps, err := c16NewMaps()
+	full := []string{"", "vf_sub", "vf_vlan", "vf_cidsub", "vf_qi"}[c16mod(cs.Knob("mapfull", 0), 5)]
+	if full != "" {
+		c.S.Probe("kmap_capacity_1_" + full)
+	}
+	maps, closeMaps, err := c16NewMaps(full)
 	defer closeMaps()
 	if err != nil {
 		// the sandbox cannot create kernel maps: run with a map-less loader
@@ -193,7 +209,11 @@ func c16RunDHCP4(c *sim.Ctx) {
 	var qosEgress, qosIngress *cebpf.Map
 	if maps.SubscriberPools != nil {
 		qosEgress, _ = cebpf.NewMap(&cebpf.MapSpec{Name: "vf_qe", Type: cebpf.Hash, KeySize: 4, ValueSize: 32, MaxEntries: 64})
-		qosIngress, _ = cebpf.NewMap(&cebpf.MapSpec{Name: "vf_qi", Type: cebpf.Hash, KeySize: 4, ValueSize: 32, MaxEntries: 64})
+		nqi := uint32(64)
+		if full == "vf_qi" {
+			nqi = 1
+		}
+		qosIngress, _ = cebpf.NewMap(&cebpf.MapSpec{Name: "vf_qi", Type: cebpf.Hash, KeySize: 4, ValueSize: 32, MaxEntries: nqi})
 		if qosEgress != nil {
 			defer qosEgress.Close()
 		}
@@ -248,6 +268,7 @@ func c16RunDHCP4(c *sim.Ctx) {
 	if nc < 1 {
 		nc = 1
 	}
+	refused := false
 	var cls []*c16cl
 	byMAC := map[string]*c16cl{}
 	for i := 0; i < nc; i++ {
@@ -275,6 +296,18 @@ func c16RunDHCP4(c *sim.Ctx) {
 			if ip := m.YourIPAddr.To4(); ip != nil && !ip.IsUnspecified() {
 				cl.bound = ip
 				cl.until = c.S.Now() + m.IPAddressLeaseTime(0)
+				if full != "" && !refused {
+					nb := 0
+					for _, x := range cls {
+						if x.bound != nil && x.ended == "" {
+							nb++
+						}
+					}
+					if nb > 1 { // more acknowledged sessions than the single-slot map holds
+						refused = true
+						c.S.Fault("kmap.insert-refused-map-full")
+					}
+				}
 			}
 		case dhcpv4.MessageTypeNak:
 			cl.offered = nil
@@ -470,7 +503,8 @@ func c16RunDHCP4(c *sim.Ctx) {
 			}
 		}
 	}
-	if n := qosMgr.GetSubscriberCount(); (n < live || n > live+indet) && !c.Failed() {
+	// (with the QoS ingress map full, a live session may legitimately have no policy installed)
+	if n := qosMgr.GetSubscriberCount(); ((n < live && full != "vf_qi") || n > live+indet) && !c.Failed() {
 		c.Fail("qos-not-removed", "dhcp4/qos-count", "%d sessions are still up (%d more may be awaiting cleanup) but the QoS manager lists %d subscribers", live, indet, n)
 	}
 	if n := natMgr.GetAllocationCount(); (n < live || n > live+indet) && !c.Failed() {
@@ -532,10 +566,18 @@ func init() {
 		Real: []string{"dhcp.Server (REQUEST/RELEASE/DECLINE handlers, lease cleanup loop) + dhcp.Pool + nat.Manager + qos.Manager + radius.PolicyManager + ebpf.Loader over real kernel maps + radius.Client.SendAccounting",
 			"pppoe.Server PADT / LCP-terminate / authentication-failure / idle-cleanup paths + IPPool", "pppoe.SessionTeardown + KeepAliveManager wired through their setters", "subscriber.Manager.TerminateSession and its timeout loop"},
 		Stub:         []string{"RADIUS server and transport", "packet connection / raw socket", "XDP program (only the maps exist)", "AddressAllocator behind subscriber.Manager (recording model)"},
-		Rule:         "cases: establish 1-3 sessions up to a generated prefix of the establishment sequence, end each by one termination path and in half of the runs by a second one (sequentially or at the same time); non-trivial = >=3 handled messages and (a fault fired or >2 context switches); distinct = distinct (case hash, schedule fingerprint)",
+		Rule:         "cases: establish 1-3 sessions up to a generated prefix of the establishment sequence, end each by one termination path and in half of the runs by a second one (sequentially or at the same time); dhcp4 variant: in 6 of 12 runs one kernel map (MAC/VLAN/circuit-id fast-path map or the QoS ingress map) has a single slot so that the control plane's insert for every further session is refused (E2BIG); non-trivial = >=3 handled messages and (a fault fired or >2 context switches); distinct = distinct (case hash, schedule fingerprint)",
 		QuickRuns:    8000,
 		ThoroughRuns: 600000,
 		Assumptions: []string{"kernel maps are created by the harness with the value sizes the Go control plane marshals; the XDP/TC programs are not loaded", "the RADIUS server answers every accounting request",
 			"a declined address, and an address on an offer that was never taken up, are not required to be back in the pool"},
 	})
+}
+
+func c16mod(v int64, n int) int {
+	m := int(v % int64(n))
+	if m < 0 {
+		m += n
+	}
+	return m
 }
